@@ -184,7 +184,7 @@ theorem putAll_rc : ∀ (l : List (Nat × NodeS)) {m : Mem} {C : List Nat}, Rc m
 theorem refOK_of_sz {m : Mem} {l : List Nat} {suf suf' : List (Nat × NodeS)} (hr : m.resolve l = some suf) (hs : SzL suf suf') :
     RefOK m suf' := by
   intro p' hp'
-  obtain ⟨p, hm, h1, h2, _, _, h5, h6, h7, h8⟩ := hs.mem p' hp'
+  obtain ⟨p, hm, h1, h2, _, _, h5, h6, h7, h8, _⟩ := hs.mem p' hp'
   exact ⟨p.2, by rw [h1]; exact resolve_mem l hr p hm, h8, h7, h6, h2, h5⟩
 
 theorem refOK_map {m : Mem} {ch : List Nat} {suf : List (Nat × NodeS)} (hr : m.resolve ch = some suf) (f : NodeS → NodeS)
